@@ -3,7 +3,7 @@ CONSTANTS
   Names = {"na", "nb"}
   Types = {"tm", "tss"}
   MaxH = 6
-  Contents = {"valid", "wrongcons", "badname"}
+  Contents = {"valid", "altroot", "wrongcons", "badname"}
   Signers = {"relayer", "tss", "outsider"}
   UpgradeSetsMeta = TRUE
   Depth = 12
